@@ -1242,10 +1242,14 @@ private:
 
     AbsDom callee_entry = m_absval_fac.make_top();
     if (m_ctx.analyze_recursive_functions() ||
-	m_ctx.get_widening_set().count(callee_cg_node) <= 0) {
+	(m_ctx.get_widening_set().count(callee_cg_node) <= 0 &&
+	 !m_ctx.included_nested_wto_component(callee_cg_node))) {
       // If we do not analyze precisely recursive functions then we
       // must start the analysis of a recursive procedure without
-      // propagating from caller to callee (i.e., top).
+      // propagating from caller to callee (i.e., top). This applies
+      // to every function in a call graph cycle and not only to the
+      // head of the cycle: the recursive calls to the other members
+      // are skipped so their invariants must cover all their calls.
       callee_entry = get_callee_entry(cs, fdecl, caller_dom, m_absval_fac.make_top());
     }
 
